@@ -476,6 +476,19 @@ func (env *CEnv) evalCall(x *ast.CallExpr) (Value, types.Type) {
 				cfail("unknown type %s", tn)
 			}
 			return BoolV{c.hasType(asInt(v), t)}, tBool
+		case "strlen":
+			v, _ := env.eval(x.Args[0])
+			c.useStr()
+			return IntV{app("str.len", asInt(v))}, tInt
+		case "haskey":
+			mv, mt := env.eval(x.Args[0])
+			kv, _ := env.eval(x.Args[1])
+			u, ok := mt.Underlying().(*types.Map)
+			if !ok {
+				cfail("haskey: not a map")
+			}
+			_, present := c.mapLookup(env.s, asInt(mv), u, kv)
+			return BoolV{present}, tBool
 		case "cast":
 			v, _ := env.eval(x.Args[0])
 			lit, ok := x.Args[1].(*ast.BasicLit)
